@@ -248,7 +248,7 @@ check("C30", "vloop+bussim+explore",
       "run the real SyncGroup.start/run/update_devices incl. map_fmmu and "
       "state changes on the virtual loop over the bus model for 3 cycles; "
       "input pattern per cycle is a free choice (3), wrong working counters "
-      "per datagram (expected-1, 0) and late frames (timeout path) are "
+      "per datagram (expected+1, expected-1, 0) and late frames (timeout path) are "
       "deviations (bound 2 quick / 3 thorough; 1.0e5 executions quick). A "
       "recording device checks: inputs seen = latest response, outputs of "
       "cycle n reach the terminals with the next frame, counters zero in "
